@@ -48,6 +48,8 @@ pub fn lookup(scen: &str) -> Option<Scenario> {
         "dmg" => scen_dmg::run,
         "dmgcat" => scen_dmg::run_catalogue,
         "c16" => scen_c16::run,
+        "rawrt" => scen_c16::run_raw,
+        "c09big" => scen_rt::run_c09_big,
         "c16sweep" => scen_c16::run_sweeps,
         "c08" => scen_wr::run_c08,
         "c15" => scen_wr::run_c15,
